@@ -80,7 +80,10 @@ def flush_rules(ctx: Ctx, res: Result, RID: str):
             fixed = ta is None or (isinstance(ta, ast.Constant) and (ta.value is None or (isinstance(ta.value, (int, float)) and ta.value > 0)))
             if not fixed and isinstance(ta, (ast.Name, ast.Attribute)):
                 if isinstance(ta, ast.Name) and t.local_bindings(flush, ta.id):
-                    fixed = False
+                    lb_ = t.local_bindings(flush, ta.id)
+                    fixed = len(lb_) == 1 and lb_[0][0] == "assign" and lb_[0][1][2] is None and isinstance(lb_[0][1][1], ast.Constant) \
+                        and isinstance(lb_[0][1][1].value, (int, float)) and not isinstance(lb_[0][1][1].value, bool) and lb_[0][1][1].value > 0 \
+                        and not paths.enclosing_loops(p, lb_[0][1][1], flush)
                 else:
                     r_ = p.resolve_expr_static(flush.module, ta)
                     v_ = r_[1].consts.get(r_[2]) if r_ and r_[0] == "const" else None
